@@ -28,18 +28,75 @@ func splitBlocks(text string) []string {
 	return blocks
 }
 
+// shrinkBudget bounds the memory the candidates of one round may take (every candidate is a full
+// copy of the project): a large project gets a few candidates that drop many blocks each, and
+// finer ones in later rounds, when it has become smaller (the scaling and depth shapes have
+// tens of thousands of blocks and megabytes of text).
+const shrinkBudget = 256 << 20
+
+// dropRanges: the ranges [a, b) of start..n to try dropping - single items when they are few,
+// otherwise at most max contiguous chunks, last first.
+func dropRanges(start, n, max int) [][2]int {
+	var out [][2]int
+	if n <= start {
+		return nil
+	}
+	if max < 2 {
+		max = 2
+	}
+	size := 1
+	if n-start > max {
+		size = (n - start + max - 1) / max
+	}
+	for b := n; b > start; b -= size {
+		a := b - size
+		if a < start {
+			a = start
+		}
+		out = append(out, [2]int{a, b})
+	}
+	return out
+}
+
 func shrinkProjects(p *Project) []*Project {
 	var out []*Project
-	// drop a non-root file
+	size := 1
+	for _, f := range p.Files {
+		size += len(f.Data)
+	}
+	max := shrinkBudget / size / 3
+	if max > 64 {
+		max = 64
+	}
+	// drop non-root files
+	rootAt := -1
 	for i, f := range p.Files {
 		if f.Path == p.Root {
+			rootAt = i
+		}
+	}
+	for _, rg := range dropRanges(0, len(p.Files), max) {
+		if rootAt >= rg[0] && rootAt < rg[1] {
+			if rg[1]-rg[0] == 1 {
+				continue
+			}
+			// keep the root, drop the others of the chunk
+			q := p.Clone()
+			var keep []GenFile
+			for i, f := range q.Files {
+				if i < rg[0] || i >= rg[1] || i == rootAt {
+					keep = append(keep, f)
+				}
+			}
+			q.Files = keep
+			out = append(out, q)
 			continue
 		}
 		q := p.Clone()
-		q.Files = append(q.Files[:i], q.Files[i+1:]...)
+		q.Files = append(q.Files[:rg[0]], q.Files[rg[1]:]...)
 		out = append(out, q)
 	}
-	// drop a block
+	// drop blocks
 	for i, f := range p.Files {
 		bl := splitBlocks(string(f.Data))
 		if len(bl) < 2 {
@@ -49,16 +106,16 @@ func shrinkProjects(p *Project) []*Project {
 		if f.Path == p.Root {
 			start = 1
 		}
-		for b := len(bl) - 1; b >= start; b-- {
+		for _, rg := range dropRanges(start, len(bl), max) {
 			q := p.Clone()
-			q.Files[i].Data = []byte(strings.Join(append(append([]string{}, bl[:b]...), bl[b+1:]...), ""))
+			q.Files[i].Data = []byte(strings.Join(append(append([]string{}, bl[:rg[0]]...), bl[rg[1]:]...), ""))
 			out = append(out, q)
 		}
 	}
 	// drop a line
 	for i, f := range p.Files {
 		ll := strings.SplitAfter(string(f.Data), "\n")
-		if len(ll) > 60 {
+		if len(ll) > 60 || len(ll) > max {
 			continue
 		}
 		start := 0
